@@ -73,6 +73,43 @@ func (c *EvalCtx) lvalues1(text string) []frameLoc {
 		return out
 	}
 	switch {
+	case strings.HasPrefix(text, "&"):
+		// the cell of a captured variable
+		name := strings.TrimSpace(text[1:])
+		for _, fv := range u.fn.FreeVars {
+			if fv.Name() == name {
+				if l, ok := c.st.locs[fv]; ok {
+					return []frameLoc{exact(l.Comp, l.CSort, l.Ref)}
+				}
+			}
+		}
+		// a closure's contract evaluated at a call site: the cell is the closure's binding
+		if cell, ok := c.cells[name]; ok {
+			return []frameLoc{exact(cell.Comp, cell.CSort, cell.Ref)}
+		}
+		c.fail("modifies &%s: no captured variable of that name", name)
+	case strings.HasPrefix(text, "allelems(") && strings.HasSuffix(text, ")"):
+		// every backing array of slices of that type (the whole element component)
+		te, err := parseExpr(text[9 : len(text)-1])
+		if err != nil {
+			c.fail("%v", err)
+		}
+		t := u.eng.resolveType(c.pkg, te)
+		sl, ok := t.Underlying().(*types.Slice)
+		if !ok {
+			c.fail("allelems(T): T must be a slice type")
+		}
+		if _, isS := isStruct(sl.Elem()); isS {
+			comps := map[string]string{}
+			u.structComps(sl.Elem(), comps)
+			var out []frameLoc
+			for _, comp := range sortedKeys(comps) {
+				out = append(out, frameLoc{Comp: comp, CSort: comps[comp], Text: text, Match: func(x Term) Term { return tTrue }})
+			}
+			return out
+		}
+		comp, cs := u.elemComp(sl.Elem())
+		return []frameLoc{{Comp: comp, CSort: cs, Text: text, Match: func(x Term) Term { return tTrue }}}
 	case strings.HasPrefix(text, "elems(") && strings.HasSuffix(text, ")"):
 		e, err := parseExpr(text[6 : len(text)-1])
 		if err != nil {
@@ -479,6 +516,12 @@ func (u *Unit) callModifies(common *ssa.CallCommon, ms *modSet) {
 	}
 	ms.allocates = true
 	c, callee, _ := u.calleeContract(common)
+	if callee == nil && !common.IsInvoke() {
+		if mc2, ok := u.resolveCellCall(common); ok {
+			callee = mc2.Fn.(*ssa.Function)
+			c = u.eng.contractFor(callee)
+		}
+	}
 	if c == nil && callee == nil && !common.IsInvoke() {
 		// call through a function value: the union over the possible targets
 		cands := u.eng.funcCandidates(common.Signature())
@@ -541,11 +584,27 @@ func (u *Unit) callModifies(common *ssa.CallCommon, ms *modSet) {
 			ctx.vars[r] = mkT("dummy", u.sortOf(sig.Results().At(i).Type()), sig.Results().At(i).Type())
 		}
 	}
+	var mcDyn *ssa.MakeClosure
 	if mc, ok := common.Value.(*ssa.MakeClosure); ok {
+		mcDyn = mc
+	} else if mc2, ok := u.resolveCellCall(common); ok {
+		mcDyn = mc2
+	}
+	if mc := mcDyn; mc != nil {
 		fn := mc.Fn.(*ssa.Function)
 		for _, fv := range fn.FreeVars {
 			if pt, ok := fv.Type().(*types.Pointer); ok {
 				ctx.vars[fv.Name()] = mkT("dummy", u.sortOf(pt.Elem()), pt.Elem())
+			}
+		}
+		for name, cell := range u.capturedCells(fn.Parent()) {
+			if _, clash := ctx.vars[name]; clash {
+				continue
+			}
+			if pt, ok := cell.Type().(*types.Pointer); ok {
+				if _, isS := isStruct(pt.Elem()); !isS {
+					ctx.vars[name] = mkT("dummy", u.sortOf(pt.Elem()), pt.Elem())
+				}
 			}
 		}
 	}
